@@ -4,6 +4,8 @@ import XrsVerif.Proofs.ViewshedOutput
 import XrsVerif.Proofs.ViewshedEvents
 import XrsVerif.Proofs.ViewshedDiscipline
 import XrsVerif.Gen.ViewshedFacts
+import XrsVerif.Proofs.ILViewshedOrder
+import XrsVerif.Proofs.ILViewshedRotR
 import Mathlib.Tactic.Positivity
 /-
   C05 -- viewshed marks a cell visible exactly when the line-of-sight model says so.
@@ -717,5 +719,171 @@ example : replay [] (sweepOps (fun i j => (i * j : Int)) 3 4 1 1) = true ∧
   ⟨sweep_discipline _ 3 4 1 1 (by decide), sweep_without_initial_fill_breaks _ 3 4 1 1 (by decide) (by decide)⟩
 
 end Events
+
+/-! ### 7. the status-tree routines as *generated from the source* (layer T3)
+
+  `Gen.IL.vs*` are the ILang translations of `_find_value_min_value`, `_tree_minimum`, `_search_for_node`,
+  `_left_rotate`, `_right_rotate`, `_max_grad_in_status_struct` (harness/facts_il.py, regenerated every run, validated
+  against the numba-compiled functions by the `il:` streams).  The refinement theorems (Proofs/ILViewshed*.lean) say
+  that these programs compute the hand model the theorems above are about, on every state whose two arrays hold a
+  well-linked tree: `sh : Sh` is the pointer structure (which row is the root, which rows hang left / right),
+  `Linked` says the link columns spell it out (NIL = -1 = the last row), `absT` reads the model tree off the arrays. -/
+section Generated
+open XrsVerif.IL XrsVerif.ILVs
+variable {F : Type} [Fl F] [Trig α]
+
+/-- an ILang state at the value domain `NV α` (all numbers non-NaN) that holds the status tree `t0` at `root` -/
+structure Holds (s : State (NV α)) (n : Nat) (sh : Sh) (t0 : Viewshed.Tree α) : Prop where
+  vs : VS s n
+  run : s.ctl = .run
+  linked : Linked (s.ia "tree_nodes") n (-1) sh
+  nodup : sh.idxs.Nodup
+  root : s.ienv "root" = sh.ptr
+  nil : vAt (s.fa "tree_vals") (n - 1) 7 = smallest
+  abs : absT (s.fa "tree_vals") (s.ia "tree_nodes") sh = mapT emb t0
+
+/-- the generated `_max_grad_in_status_struct` returns the model's `query` (search, phase 1 along the parent pointers,
+    phase 2 = in-order predecessor walk with early exit) and leaves the arrays alone; fuel = one unit per loop iteration -/
+theorem generated_query_is_model_query (s : State (NV α)) (fuel n : Nat) (sh : Sh) (t0 : Viewshed.Tree α)
+    (h : Holds s n sh t0) (hb : BST t0) (K ang g : α)
+    (hd : s.fenv "distance" = some K) (ha : s.fenv "angle" = some ang) (hg : s.fenv "gradient" = some g)
+    (hfuel : sh.size + sh.height + 2 ≤ fuel) :
+    let q := Gen.IL.vsQuery.run s fuel
+    q.ctl = .ret ∧ q.fenv "ret0" = some (query smallestK t0 K ang g) ∧ q.fa = s.fa ∧ q.ia = s.ia :=
+  vsQuery_model s fuel n h.vs h.run sh h.linked h.nodup h.root h.nil t0 h.abs hb K ang g hd ha hg hfuel
+
+/-- **the generated query decides line of sight**: `query_decides` for the program translated from the source -/
+theorem generated_query_decides (s : State (NV α)) (fuel n : Nat) (sh : Sh) (t0 : Viewshed.Tree α)
+    (h : Holds s n sh t0) (hb : BST t0) (hq : AugLeQ smallestK t0) (K ang g : α) (hS : smallestK ≤ g)
+    (hK : ∃ m ∈ t0.toList, m.key = K)
+    (hact : ∀ m ∈ t0.toList, m.key < K → spans m ang = true ∨ minv m ≤ g)
+    (hd : s.fenv "distance" = some K) (ha : s.fenv "angle" = some ang) (hg : s.fenv "gradient" = some g)
+    (hfuel : sh.size + sh.height + 2 ≤ fuel) :
+    let q := Gen.IL.vsQuery.run s fuel
+    q.ctl = .ret ∧ ∃ v, q.fenv "ret0" = some v ∧
+      (v ≤ g ↔ ∀ m ∈ t0.toList, m.key < K → spans m ang = true → itp m ang ≤ g) := by
+  obtain ⟨h1, h2, _, _⟩ := generated_query_is_model_query s fuel n sh t0 h hb K ang g hd ha hg hfuel
+  exact ⟨h1, _, h2, query_decides K ang g hS hb hq hK hact⟩
+
+/-- for every number type: the generated query is the two-phase query of the abstracted tree with the phase-2 list
+    given structurally (`predsOf`), provided the code's `raise ValueError` is not reached -/
+theorem generated_query_generic (s : State F) (fuel n : Nat) (hv : VS s n) (hrun : s.ctl = .run) (sh : Sh)
+    (hL : Linked (s.ia "tree_nodes") n (-1) sh) (hN : sh.idxs.Nodup) (hroot : s.ienv "root" = sh.ptr)
+    (hS : vAt (s.fa "tree_vals") (n - 1) 7 = smallest)
+    (hnf : ∀ nd ∈ predsOf (absT (s.fa "tree_vals") (s.ia "tree_nodes") sh) ⟨s.fenv "distance"⟩,
+      ¬ (⟨s.fenv "distance"⟩ : Fv F) < nd.key)
+    (hfuel : sh.size + sh.height + 2 ≤ fuel) :
+    let q := Gen.IL.vsQuery.run s fuel
+    q.ctl = .ret ∧
+      q.fenv "ret0" = (queryP smallest (absT (s.fa "tree_vals") (s.ia "tree_nodes") sh)
+        ⟨s.fenv "distance"⟩ ⟨s.fenv "angle"⟩ ⟨s.fenv "gradient"⟩).v ∧
+      q.fa = s.fa ∧ q.ia = s.ia :=
+  vsQuery_refines s fuel n hv hrun sh hL hN hroot hS hnf hfuel
+
+/-- the generated `_left_rotate` / `_right_rotate` are the model's `rotL` / `rotR` on the abstraction, stored maxima
+    included, for every number type (no order laws needed) -/
+theorem generated_rotations_are_model_rotations (s : State F) (fuel n : Nat) (hv : VS s n) (hrun : s.ctl = .run)
+    (a : Sh) (x : Nat) (b : Sh) (y : Nat) (c : Sh) (par : Int) :
+    (Linked (s.ia "tree_nodes") n par (.node a x (.node b y c)) → (Sh.node a x (.node b y c)).idxs.Nodup →
+      s.ienv "x" = x → (par = -1 ∨ ∃ p : Nat, par = (p : Int) ∧ p + 1 < n ∧ p ∉ (Sh.node a x (.node b y c)).idxs) →
+      let q := Gen.IL.vsLeftRotate.run s fuel
+      q.ctl = .ret ∧ Linked (q.ia "tree_nodes") n par (.node (.node a x b) y c) ∧
+        absT (q.fa "tree_vals") (q.ia "tree_nodes") (.node (.node a x b) y c) =
+          rotL (vAt (s.fa "tree_vals") (n - 1) 7) (absT (s.fa "tree_vals") (s.ia "tree_nodes") (.node a x (.node b y c))) ∧
+        q.ienv "ret0" = (if par = -1 then (y : Int) else s.ienv "root")) ∧
+    (Linked (s.ia "tree_nodes") n par (.node (.node a x b) y c) → (Sh.node (.node a x b) y c).idxs.Nodup →
+      s.ienv "y" = y → (par = -1 ∨ ∃ p : Nat, par = (p : Int) ∧ p + 1 < n ∧ p ∉ (Sh.node (.node a x b) y c).idxs) →
+      let q := Gen.IL.vsRightRotate.run s fuel
+      q.ctl = .ret ∧ Linked (q.ia "tree_nodes") n par (.node a x (.node b y c)) ∧
+        absT (q.fa "tree_vals") (q.ia "tree_nodes") (.node a x (.node b y c)) =
+          rotR (vAt (s.fa "tree_vals") (n - 1) 7) (absT (s.fa "tree_vals") (s.ia "tree_nodes") (.node (.node a x b) y c)) ∧
+        q.ienv "ret0" = (if par = -1 then (x : Int) else s.ienv "root")) := by
+  refine ⟨fun hl hn hx hp => ?_, fun hl hn hy hp => ?_⟩
+  · have := vsLeftRotate_refines s fuel n hv hrun a x b y c par hl hn hx hp
+    exact ⟨this.1, this.2.2.2.1, this.2.2.2.2.1, this.2.2.1⟩
+  · have := vsRightRotate_refines s fuel n hv hrun a x b y c par hl hn hy hp
+    exact ⟨this.1, this.2.2.2.1, this.2.2.2.2.1, this.2.2.1⟩
+
+/-- hence (`rotate_preserves`) the subtree the generated left rotation leaves behind holds the same nodes in the same
+    order, and is ordered / free of overestimates / exact whenever the subtree before was -/
+theorem generated_left_rotation_preserves (s : State (NV α)) (fuel n : Nat) (hv : VS s n) (hrun : s.ctl = .run)
+    (a : Sh) (x : Nat) (b : Sh) (y : Nat) (c : Sh) (par : Int) (t0 : Viewshed.Tree α)
+    (hl : Linked (s.ia "tree_nodes") n par (.node a x (.node b y c))) (hn : (Sh.node a x (.node b y c)).idxs.Nodup)
+    (hx : s.ienv "x" = x) (hp : par = -1 ∨ ∃ p : Nat, par = (p : Int) ∧ p + 1 < n ∧ p ∉ (Sh.node a x (.node b y c)).idxs)
+    (hS : vAt (s.fa "tree_vals") (n - 1) 7 = smallest)
+    (habs : absT (s.fa "tree_vals") (s.ia "tree_nodes") (.node a x (.node b y c)) = mapT emb t0) :
+    let q := Gen.IL.vsLeftRotate.run s fuel
+    ∃ t1, absT (q.fa "tree_vals") (q.ia "tree_nodes") (.node (.node a x b) y c) = mapT emb t1 ∧
+      t1.toList = t0.toList ∧ (BST t0 → BST t1) ∧ (AugLe smallestK t0 → AugLe smallestK t1) ∧
+      (Exact smallestK t0 → Exact smallestK t1) := by
+  have h := (vsLeftRotate_refines s fuel n hv hrun a x b y c par hl hn hx hp).2.2.2.2.1
+  rw [habs, hS, smallest_emb, rotL_emb] at h
+  have hp := rotate_preserves (α := α) smallestK [] (t := t0)
+  simp only [atPath] at hp
+  exact ⟨rotL smallestK t0, h, hp.1.1, fun hb => (hp.2.1 hb).1, fun ha => (hp.2.2.1 ha).1, fun he => (hp.2.2.2 he).1⟩
+
+/-- the small routines: `_find_value_min_value` is `minv`; `_tree_minimum` returns the row of the first node in order;
+    `_search_for_node` returns NIL exactly when the model's `contains` is false -/
+theorem generated_small_routines (s : State F) (fuel n : Nat) (hv : VS s n) (hrun : s.ctl = .run) :
+    (PtrOK n (s.ienv "node_id") →
+      (Gen.IL.vsFindValueMin.run s fuel).fenv "ret0" =
+        (minv (nodeAt (s.fa "tree_vals") (rowOf n (s.ienv "node_id")))).v) ∧
+    (∀ (l : Sh) (i : Nat) (r : Sh) (par : Int), Linked (s.ia "tree_nodes") n par (.node l i r) → s.ienv "x" = i →
+      l.lheight < fuel →
+      ∃ m : Nat, (Gen.IL.vsTreeMinimum.run s fuel).ienv "ret0" = m ∧
+        (absT (s.fa "tree_vals") (s.ia "tree_nodes") (.node l i r)).toList.head? = some (nodeAt (s.fa "tree_vals") m)) ∧
+    (∀ (sh : Sh) (par : Int), Linked (s.ia "tree_nodes") n par sh → s.ienv "root" = sh.ptr → sh.height < fuel →
+      ((Gen.IL.vsSearch.run s fuel).ienv "ret0" = -1 ↔
+        (absT (s.fa "tree_vals") (s.ia "tree_nodes") sh).contains ⟨s.fenv "key"⟩ = false)) := by
+  refine ⟨fun hp => (vsFindValueMin_refines s fuel n hv hrun hp).2.1, fun l i r par hl hx hf => ?_,
+    fun sh par hl hr hf => ?_⟩
+  · exact ⟨minIdx l i, (vsTreeMinimum_refines s fuel n hv hrun l i r par hl hx hf).2.1, minIdx_head _ _ l i r⟩
+  · rw [(vsSearch_refines s fuel n hv hrun sh par hl hr hf).2.1, findPtr_contains]
+    simp
+
+/-! non-vacuity: a concrete state holding the three-node tree of the example after `query_decides` (rows 0 = the root
+    with key 2, 1 = key 1, 2 = key 3, 3 = NIL); the generated query at key 3 returns 2, the gradient of the node
+    with key 1 found by the exact walk; the left rotation at the root applies -/
+def exVals : List (NV ℚ) :=
+  ([2, 1, 1, 1, 0, 1, 2, 1,   1, 2, 2, 2, 0, 1, 2, 2,   3, 0, 0, 0, 0, 1, 2, 0,
+    0, 0, 0, 0, 0, 0, 0, -10000000000000000000000] : List ℚ).map some
+def exNodes : List Int := [1, 1, 2, -1,   0, -1, -1, 0,   0, -1, -1, 0,   1, -1, -1, -1]
+def exState [Trig ℚ] : State (NV ℚ) :=
+  { State.empty with
+    fa := fun a => if a = "tree_vals" then exVals else [],
+    ia := fun a => if a = "tree_nodes" then exNodes else [],
+    shp := fun a => if a = "tree_vals" then [4, 8] else if a = "tree_nodes" then [4, 4] else [],
+    ienv := fun _ => 0,
+    fenv := fun v => if v = "distance" then some 3 else if v = "angle" then some 1 else if v = "gradient" then some 0
+      else none }
+def exTree : Viewshed.Tree ℚ :=
+  .node (.node .nil ⟨1, 2, 2, 2, 0, 1, 2⟩ 2 true .nil) ⟨2, 1, 1, 1, 0, 1, 2⟩ 1 false (.node .nil ⟨3, 0, 0, 0, 0, 1, 2⟩ 0 true .nil)
+def exShape : Sh := .node (.node .nil 1 .nil) 0 (.node .nil 2 .nil)
+
+theorem exState_holds [Trig ℚ] : Holds exState 4 exShape exTree := by
+  refine ⟨⟨rfl, rfl, rfl, rfl, by decide⟩, rfl, ?_, by decide, rfl, ?_, ?_⟩
+  · simp [Linked, nAt, exState, exNodes, Sh.ptr, exShape]
+  · simp [vAt, exState, exVals, smallest]
+  · simp [absT, nodeAt, vAt, nAt, mapT, mapN, emb, exState, exVals, exNodes, exShape, exTree]
+
+example [Trig ℚ] : (Gen.IL.vsQuery.run exState 7).ctl = .ret ∧ (Gen.IL.vsQuery.run exState 7).fenv "ret0" = some 2 := by
+  have hb : BST exTree := by rw [← bstB_iff]; decide
+  obtain ⟨h1, h2, _, _⟩ := generated_query_is_model_query exState 7 4 exShape exTree exState_holds hb 3 1 0 rfl rfl rfl
+    (by decide)
+  refine ⟨h1, ?_⟩
+  rw [h2]
+  have : query (smallestK : ℚ) exTree 3 1 0 = 2 := by
+    unfold smallestK
+    norm_num [query, Tree.contains, short, walk, exTree, Tree.toList, spans, itp, mx2, mn2, minv, mxOf]
+  rw [this]
+
+example [Trig ℚ] :
+    let q := Gen.IL.vsLeftRotate.run exState 0
+    q.ctl = .ret ∧ q.ienv "ret0" = 2 ∧ Linked (q.ia "tree_nodes") 4 (-1) (.node (.node (.node .nil 1 .nil) 0 .nil) 2 .nil) := by
+  have h := (generated_rotations_are_model_rotations exState 0 4 exState_holds.vs rfl (.node .nil 1 .nil) 0 .nil 2 .nil
+    (-1)).1 exState_holds.linked (by decide) rfl (Or.inl rfl)
+  exact ⟨h.1, by simpa using h.2.2.2, h.2.1⟩
+
+end Generated
 
 end XrsVerif.C05
